@@ -47,6 +47,7 @@ is library behaviour: tied by the differential harness only (see notes/C16.md).
 import Pandora.Model.C16
 import Pandora.Model.C16Locals
 import Pandora.Model.C16Ammo
+import Pandora.Model.C16Frozen
 import Pandora.Spec.C16
 import Pandora.Proofs.C16
 import Pandora.Proofs.C16Locals
@@ -261,9 +262,13 @@ def sample : V :=
       .map [("name", .str "s"), ("weight", .null), ("min_waiting_time", .int 10),
         ("requests", .seq [.str "auth_req(2)"])]])]
 
-/-- what yaml.v2 writes for it: `tag`, `templater`, `weight`, the empty `headers` are left out (`omitempty`), the empty
-`body` is written (non-nil pointer), `size.op` is written as null (no `omitempty`) -/
-example : marshal current sample =
+/-- the frozen copy of the tables (an illustration that does not follow the source) satisfies `compat`: the hypothesis
+of `C16_equiv` is met by non-trivial tables -/
+example : compat Frozen.tables Frozen.unread = true := by decide
+
+/-- what yaml.v2 writes for it (frozen tables): `tag`, `templater`, `weight`, the empty `headers` are left out
+(`omitempty`), the empty `body` is written (non-nil pointer), `size.op` is written as null (no `omitempty`) -/
+example : marshal Frozen.tables sample =
     .map [
       ("requests", .seq [
         .map [("name", .str "auth_req"), ("method", .str "POST"), ("uri", .str "/auth"), ("body", .str ""),
@@ -276,7 +281,7 @@ example : marshal current sample =
         .map [("name", .str "s"), ("min_waiting_time", .int 10), ("requests", .seq [.str "auth_req(2)"])]])] := rfl
 
 /-- what the user writes in YAML: the empty `headers` map is written, `size.op` is not -/
-example : yamlDoc current sample =
+example : yamlDoc Frozen.tables sample =
     .map [
       ("requests", .seq [
         .map [("name", .str "auth_req"), ("method", .str "POST"), ("uri", .str "/auth"), ("headers", .map []),
@@ -289,7 +294,8 @@ example : yamlDoc current sample =
       ("scenarios", .seq [
         .map [("name", .str "s"), ("min_waiting_time", .int 10), ("requests", .seq [.str "auth_req(2)"])]])] := rfl
 
-/-- the two documents differ, and both decode to the same record: `Body` present and empty, `MinWaitingTime` kept -/
+/-- the two documents differ, and both decode to the same record — on the tables of the CURRENT source —: `Body`
+present and empty, `MinWaitingTime` kept -/
 example : decode current (marshal current sample) =
     some (.map [
       ("Requests", .seq [
@@ -304,7 +310,7 @@ example : decode current (marshal current sample) =
 
 /-- gohcl's struct for a description that mentions only what the user wrote: the other fields are nil, and yaml.v2
 writes the nil pointers that have no `omitempty` (`size { val = 40 }` → `op: null`) -/
-example : marshal current (complete current
+example : marshal Frozen.tables (complete Frozen.tables
       (.map [("request", .seq [.map [("name", .str "r"), ("method", .str "GET"), ("uri", .str "/"), ("headers", .map []),
         ("postprocessor", .seq [.map [("type", .str "assert/response"), ("size", .map [("val", .int 40)])]])]])])) =
     .map [("requests", .seq [.map [("name", .str "r"), ("method", .str "GET"), ("uri", .str "/"),
